@@ -228,6 +228,31 @@ def run(tier):
     opts_gen = lambda r: dict(G.gen_opts(r, coerce=False), fall_back_on_default=False)
     PD = Producer(R, *n2, depth=3, make_opts=opts_gen, make_universe=typed_universe, matrix=1)
 
+    def shadows_field(u, t, d, al, seen=0):
+        """KF-C05: under additional_properties a TypedDict keeps its additional keys; one that is spelled like a field *name*
+        (while the aliaser gives that field another external name) takes the place of the field in the result"""
+        k = t[0]
+        if seen > 6:
+            return False
+        if k in ("coll", "con"):
+            inner = t[2]
+            if k == "con":
+                return shadows_field(u, inner, d, al, seen)
+            return isinstance(d, list) and any(shadows_field(u, inner, x, al, seen) for x in d)
+        if k == "tuple":
+            return isinstance(d, list) and any(shadows_field(u, ti, x, al, seen) for ti, x in zip(t[1], d))
+        if k == "union":
+            return any(shadows_field(u, ti, d, al, seen) for ti in t[1])
+        if k == "map":
+            return isinstance(d, dict) and any(shadows_field(u, t[2], x, al, seen) for x in d.values())
+        if k == "obj" and isinstance(d, dict):
+            cl = u["classes"][t[1]]
+            aliases = {al(f["alias"]) for f in cl["fields"]}
+            if cl["kind"] == "typeddict" and any(key in {f["name"] for f in cl["fields"]} and key not in aliases for key in d):
+                return True
+            return any(al(f["alias"]) in d and shadows_field(u, f["ty"], d[al(f["alias"])], al, seen + 1) for f in cl["fields"])
+        return False
+
     def dual(U, c):
         if c.kind != "ok" or not in_domain(c.data) or not unambiguous(c.t, c.u) or counts_properties(c.t, c.u):
             return
@@ -238,10 +263,16 @@ def run(tier):
             d2 = serialize(T, c.payload, check_type=False, **kw)
             v2 = deserialize(T, d2, **kw)
         except Exception as e:
+            if c.opts["additional_properties"] and shadows_field(c.u, c.t, data_real(c.data), al) \
+                    and R.known_match("typeddict-extra-shadows-field"):
+                return
             R.violation(f"serialize / re-deserialize of an accepted datum raised {type(e).__name__}: {e}", c.to_json())
             return
         R.count("dual_round_trips")
         if not v2 == c.payload:      # equal value: defaults are used as they are, whatever the class deserialization would build
+            if c.opts["additional_properties"] and shadows_field(c.u, c.t, data_real(c.data), al) \
+                    and R.known_match("typeddict-extra-shadows-field"):
+                return
             R.violation("serialize(T, deserialize(T, d)) does not re-deserialize to an equal value", dict(c.to_json(), again=repr(d2)))
             return
         real = data_real(c.data)
@@ -254,6 +285,7 @@ def run(tier):
 
     PD.hooks.append(dual)
     PD.run()
+    typeddict_shadow_probe(R)
     from harness import probes
     probes.late_conversion_round_trip(R)
     probes.flatten_probe(R)
@@ -280,6 +312,36 @@ def run(tier):
              "satisfying their constraints x exclude_defaults / exclude_unset x aliaser x additional_properties x "
              "no_copy, directly and through json.dumps / json.loads; dual: accepted data of the C06 stream, serialize then "
              "deserialize again, equal value and data covered")
+
+
+def typeddict_shadow_probe(R):
+    """directed probe of KF-C05-typeddict-extra-shadows-field: an additional property spelled like a field name"""
+    pyrun.ensure_repo_on_path()
+    from typing import TypedDict
+    from apischema import deserialize, serialize, ValidationError
+
+    class _TDreq(TypedDict):
+        a: str
+
+    class _TD(_TDreq, total=False):
+        b: float
+    al = lambda s: "p_" + s      # noqa
+    kw = dict(aliaser=al, additional_properties=True)
+    R.count("typeddict_shadow_probe")
+    try:
+        v = deserialize(_TD, {"p_a": "abc", "p_b": 2, "b": ""}, **kw)
+    except ValidationError:
+        return                      # rejected: one of the two possible repairs
+    out = serialize(_TD, v, check_type=False, **kw)
+    try:
+        back = deserialize(_TD, out, **kw)
+        if back == v:
+            return                  # the round trip holds (the additional property was dropped or kept apart)
+    except ValidationError:
+        pass
+    if not R.known_match("typeddict-extra-shadows-field"):
+        R.violation(f"deserialize keeps the additional property 'b' in place of the field b: {v!r}; serialize gives {out!r}, "
+                    "which does not deserialize back", dict(data={"p_a": "abc", "p_b": 2, "b": ""}))
 
 
 def replay(data):
